@@ -44,3 +44,18 @@ Definition chk_ll (tc ts : list (float * float)) (rows : list ((float * float * 
   forallb (fun p => let '(qc, off, chord, tw, di) := fst p in
                     v3_close 0x1p-44 0x1p-44 (ll_loc (mkv qc) off chord (unswept_axial (olookup tc) (olookup ts) tw di)) (snd p))
           (combine rows e).
+
+(* section dihedral of a curve given by points: window and angle, bit for bit (arctan2 from a table keyed by its two arguments) *)
+Definition chk_dihedral_points (ta : list (float * float * float)) (left_side : bool)
+           (rows : list (float * (float * float) * ((float * float * float) * (float * float * float)))) (e : list float) : bool :=
+  Nat.eqb (List.length rows) (List.length e) &&
+  forallb (fun p => let '(s, w, (p0, p1)) := fst p in
+                    let (a, b) := fd_window s in
+                    fbits_eq a (fst w) && fbits_eq b (snd w) &&
+                    fbits_eq (dihedral_points (olookup2 ta) left_side (mkv p0) (mkv p1)) (snd p))
+          (combine rows e).
+
+Definition chk_sweep_points (tt tq : list (float * float)) (left_side : bool)
+           (rows : list ((float * float * float) * (float * float * float))) (e : list float) : bool :=
+  Nat.eqb (List.length rows) (List.length e) &&
+  forallb (fun p => let '(p0, p1) := fst p in fbits_eq (sweep_points (olookup tt) (olookup tq) left_side (mkv p0) (mkv p1)) (snd p)) (combine rows e).
